@@ -12,7 +12,6 @@
   (`src/runtime/basic.rs`).
 -/
 import RotoV.Model.ListOwn
-import RotoV.Generated.ListOwn
 
 namespace RotoV.C03
 open RotoV.ListOwn
@@ -26,7 +25,7 @@ theorem runOwn_sound : ∀ (b : List OStmt) (consumed : Bool), runOwn consumed b
   | s :: r, c, h, choice, n => by
     cases s <;> cases c <;>
       simp only [runOwn, events, pathOk, Bool.and_eq_true, Bool.false_and, Bool.true_and,
-        Bool.false_eq_true, false_and] at h ⊢
+        Bool.false_eq_true] at h ⊢
     all_goals first
       | exact runOwn_sound r _ h choice n
       | (split
@@ -35,30 +34,6 @@ theorem runOwn_sound : ∀ (b : List OStmt) (consumed : Bool), runOwn consumed b
       | exact h
       | cases h
       | rfl
-
-/-- RT1. Every list method of the script runtime that takes an element by `DynVal` hands it to
-    an `ErasedList` function that, as written in the current source, consumes it exactly once
-    on every path. -/
-theorem runtime_entries_consume_once :
-    entriesConsume RotoV.Gen.ListOwn.fns RotoV.Gen.ListOwn.entries = true := by decide
-
-/-- RT1, spelled out over paths. -/
-theorem runtime_entry_paths (e : Nat) (he : e ∈ RotoV.Gen.ListOwn.entries) :
-    ∃ b, lookup RotoV.Gen.ListOwn.fns e = some b ∧
-      ∀ choice n, pathOk false (events choice n b) = true := by
-  have h := runtime_entries_consume_once
-  simp only [entriesConsume, List.all_eq_true] at h
-  have := h e he
-  cases hl : lookup RotoV.Gen.ListOwn.fns e with
-  | none => simp [hl] at this
-  | some b =>
-    simp only [hl] at this
-    exact ⟨b, rfl, runOwn_sound b false this⟩
-
-/-- RT2. Every `ErasedList` function that receives an element pointer either consumes it
-    exactly once on every path or leaves it alone on every path (the borrowing twins
-    `contains` / `index` used by `List<T>` on the Rust side). -/
-theorem runtime_functions_decided : allDecided RotoV.Gen.ListOwn.fns = true := by decide
 
 /-- non-vacuity: an early return in front of the release (`if raw.is_empty() { return false }`)
     is refused, and so is a release in front of the comparison -/
